@@ -376,6 +376,20 @@ def run(spec, ctx):
             check_text(ctx, t, docs, "directed", must_compile=False)
         ctx.count("directed_texts", len(texts))
         run_surrogates(ctx)
+        # thread-wide arithmetic state the host application may have set: a decimal context with little precision, with
+        # rounding traps, with another rounding mode. Number literals must come back from the string form all the same.
+        import decimal
+
+        numq = ["$[?@.a == %s]" % n_ for n_ in ("3.141592653589793", "1.5e-7", "1e16", "0.1", "123456789.125", "1e22", "2.5e-300", "1.7976931348623157e308", "9007199254740993", "-0.0", "1e-7", "100000000000000000000.0", "12e1", "0.30000000000000004")] + ["$[?@.a < 1.5e-7 || @.b >= 3.141592653589793]", "$[?@.a in [0.1, 1e16, 2.5]]"]
+        numdocs = [[{"a": v, "b": v} for v in (3.141592653589793, 3.14159, 1.5e-7, 1e16, 0.1, 123456789.125, 1e22, 2.5e-300, 1.7976931348623157e308, 9007199254740993, 9007199254740992, 0.0, 1e-7, 1e20, 120, 0.30000000000000004, 0.3, 2.5)]]
+        for cname, setup in (("precision 6", lambda c: setattr(c, "prec", 6)), ("precision 1", lambda c: setattr(c, "prec", 1)), ("precision 9 with Inexact and Rounded trapped", lambda c: (setattr(c, "prec", 9), c.traps.__setitem__(decimal.Inexact, True), c.traps.__setitem__(decimal.Rounded, True))),
+                             ("rounding up, small exponent range", lambda c: (setattr(c, "rounding", decimal.ROUND_UP), setattr(c, "Emax", 10), setattr(c, "Emin", -10), setattr(c, "prec", 5))), ("basic context", lambda c: None)):
+            with decimal.localcontext(decimal.BasicContext if cname == "basic context" else None) as c_:
+                setup(c_)
+                for t in numq:
+                    check_text(ctx, t, numdocs, "directed", must_compile=True)
+                    ctx.count("number_literals_under_other_decimal_contexts")
+            ctx.cell("decimal_contexts", cname)
         return
     seeds = []
     for i in range(spec["n"]):
